@@ -560,7 +560,10 @@ class URL:
         """Cache the netloc parts of the URL."""
         c = self._cache
         split_loc = split_netloc(self._netloc)
-        c["raw_user"], c["raw_password"], c["raw_host"], c["explicit_port"] = split_loc
+        c["raw_user"], c["raw_password"], raw_host, c["explicit_port"] = split_loc
+        # An authority with an empty host has the host "" (None is for URLs
+        # without an authority), as encode_url() pre-fills it.
+        c["raw_host"] = "" if raw_host is None and self._netloc else raw_host
 
     def is_absolute(self) -> bool:
         """A check for absolute URLs.
@@ -790,7 +793,7 @@ class URL:
         """
         if (raw := self.raw_host) is None:
             return None
-        if raw[-1] == ".":
+        if raw and raw[-1] == ".":
             # Remove all trailing dots from the netloc as while
             # they are valid FQDNs in DNS, TLS validation fails.
             # See https://github.com/aio-libs/aiohttp/issues/3636.
